@@ -93,6 +93,14 @@ Proof.
   exists CB, d, toks, rf. split; [reflexivity|]. split; [exact Eb|]. split; [exact (block_parse_refs CB _ toks rf Eb)|exact H].
 Qed.
 
+(* ---- known findings as theorems about the faithful model (the same inputs are replayed on the implementation by the
+   check; the correspondence run ties model and code) ---- *)
+(* KNOWN FINDING list-item-then-quote, reproduced by the whole-document model: the FIRST definition (/u1, in the last item of a list) loses against the one in the quote that follows *)
+Example C12_list_item_then_quote_refuted :
+  core_html true false [49; 46; 32; 91; 102; 111; 111; 93; 58; 32; 47; 117; 49; 10; 10; 62; 32; 91; 102; 111; 111; 93; 58; 32; 47; 117; 48; 10; 10; 91; 102; 111; 111; 93; 10]%Z
+  = Ok [60; 111; 108; 62; 10; 60; 108; 105; 62; 60; 47; 108; 105; 62; 10; 60; 47; 111; 108; 62; 10; 60; 98; 108; 111; 99; 107; 113; 117; 111; 116; 101; 62; 10; 60; 47; 98; 108; 111; 99; 107; 113; 117; 111; 116; 101; 62; 10; 60; 112; 62; 60; 97; 32; 104; 114; 101; 102; 61; 34; 47; 117; 48; 34; 62; 102; 111; 111; 60; 47; 97; 62; 60; 47; 112; 62; 10]%Z.
+Proof. vm_compute. reflexivity. Qed.
+
 Print Assumptions C12_first_definition_wins.
 Print Assumptions C12_case_insensitive.
 Print Assumptions C12_whitespace_insensitive.
